@@ -145,6 +145,9 @@ def trace_obligations(pid, method, policy, nested):
                              'transaction left open: %d BEGIN, %d COMMIT, %d ROLLBACK' % (len(begins), len(commits), len(rollbacks))))
                 ok = st.ghost['self'].fields['_txn_id'] is None
                 out.append(R('C06.%s%s.owner_reset' % (method, tag), ok, method, p, 'owner not cleared at the end of the outermost block'))
+                ok = all(tr[i][1].get('owner', 'ABSENT') is None for i in commits + rollbacks)
+                out.append(R('C06.%s%s.owner_cleared_before_release' % (method, tag), ok, method, p,
+                             'write lock released while this thread is still marked as owner'))
                 if p.kind == 'raise' and p.value.cls != 'Timeout':
                     raised_in_block = any(e[0] == 'FAULT' and begins and i > begins[0] for i, e in enumerate(tr))
                     if raised_in_block:
@@ -169,6 +172,95 @@ def trace_obligations(pid, method, policy, nested):
             out += c14_path(method, tag, p, nested)
     if seen == 0:
         out.append(Result('%s.%s[%s]' % (pid, method, policy), 'vacuity', 'error', detail='no paths'))
+    return out
+
+
+# ------------------------------------------------------------------ the transaction block itself
+def transact_block(pid):
+    """Contract of Cache.transact / Cache._transact as a context manager, for every entry state and
+    every way the body can end.  Every property that argues with 'one transaction block is atomic'
+    (C05, C06, C07, C11, C12, C20) relies on it:
+      outermost: BEGIN IMMEDIATE, owner = this thread while the body runs; the body returning commits,
+                 the body raising rolls back and the exception propagates; either way the owner mark is
+                 cleared, so the NEXT operation of this thread takes the write lock again;
+      nested:    no BEGIN / COMMIT / ROLLBACK, owner kept."""
+    from pyvc.engine import raise_py
+    ctx = cctx()
+    fv = ctx.func('diskcache.core.Cache.transact')
+    out = []
+    for nested in (False, True):
+        for body_raises in (False, True):
+            def body(st, nested=nested, body_raises=body_raises):
+                ctx.sql.busy = True
+                ctx.sql.faults = 'base'
+                ctx.sql.auto_rollback = True
+                it = ctx.interp(st)
+                cache = make_cache(ctx, st, policy='none', nested=nested)
+                st.ghost['self'] = cache
+
+                def cm_body(y):
+                    st.ghost['owner_in_body'] = cache.fields['_txn_id']
+                    st.ghost['active_in_body'] = bool(st.world.get('txn.active'))
+                    st.effect('BODY')
+                    if body_raises:
+                        raise_py('RuntimeError', 'body failed')
+                return it.call_function(fv, [cache, True], {}, cm_body=cm_body)
+            try:
+                paths = explore(body, max_paths=2000)
+            finally:
+                ctx.sql.faults = False
+                ctx.sql.auto_rollback = False
+            seen = 0
+            for n, p in enumerate(paths):
+                st = p.state
+                tr = st.trace
+                tag = '[%s,body %s]#%d' % ('nested' if nested else 'outermost', 'raises' if body_raises else 'returns', n)
+                base = '%s.transact%s' % (pid, tag)
+                for o in st.obligations:
+                    out.append(discharge('%s/%s' % (base, o.name), o.kind, o.pc, o.goal, function='Cache._transact', path=p.decisions))
+                if p.kind == 'cut':
+                    continue
+                seen += 1
+                kinds = [e[0] for e in tr if e[0] in ('BEGIN', 'COMMIT', 'ROLLBACK', 'BODY')]
+                owner = st.ghost['self'].fields['_txn_id']
+                ran = 'BODY' in kinds
+                if nested:
+                    ok = kinds == ['BODY'] and isinstance(owner, SV) and owner.t.eq(st.world['tid']) and bool(st.world.get('txn.active'))
+                    out.append(R(base + '.nested_is_noop', ok, 'transact', p,
+                                 'inner block did %r, owner afterwards %r' % (kinds, owner)))
+                else:
+                    ok = owner is None and not st.world.get('txn.active')
+                    out.append(R(base + '.owner_reset', ok, 'transact', p,
+                                 'after the outermost block (%s) the owner mark is %r and the transaction is %s: the next '
+                                 'operation of this thread would run without taking the write lock'
+                                 % (p.kind, owner, 'open' if st.world.get('txn.active') else 'closed')))
+                    ends = [e[1] for e in tr if e[0] in ('COMMIT', 'ROLLBACK')]
+                    ok = all(e.get('owner', 'ABSENT') is None for e in ends)
+                    out.append(R(base + '.owner_cleared_before_release', ok, 'transact', p,
+                                 'the write lock is released (COMMIT / ROLLBACK) while this thread is still marked as owner: '
+                                 'another thread of the same object that begins now has its mark wiped afterwards'))
+                    if ran:
+                        ob = st.ghost.get('owner_in_body')
+                        ok = isinstance(ob, SV) and ob.t.eq(st.world['tid']) and st.ghost.get('active_in_body') and \
+                            all(e[1]['immediate'] for e in tr if e[0] == 'BEGIN')
+                        out.append(R(base + '.body_owns_immediate_transaction', ok, 'transact', p,
+                                     'body ran with owner %r, transaction active=%r' % (ob, st.ghost.get('active_in_body'))))
+                        faulted = any(e[0] == 'FAULT' for e in tr[tr.index(next(e for e in tr if e[0] == 'BODY')):])
+                        if body_raises:
+                            auto = any(e[0] == 'ROLLBACK' and e[1].get('auto') for e in tr)
+                            ok = kinds == ['BEGIN', 'BODY', 'ROLLBACK'] and p.kind == 'raise' and \
+                                (p.value.cls == 'RuntimeError' or faulted or (auto and p.value.cls == 'sqlite3.OperationalError'))
+                            out.append(R(base + '.exception_rolls_back', ok, 'transact', p,
+                                         'body raised: effects %r, exit %s %r' % (kinds, p.kind, p.value)))
+                        elif not faulted:
+                            ok = kinds == ['BEGIN', 'BODY', 'COMMIT'] and p.kind == 'return'
+                            out.append(R(base + '.return_commits', ok, 'transact', p,
+                                         'body returned: effects %r, exit %s %r' % (kinds, p.kind, p.value)))
+                if p.kind == 'raise' and not ran:
+                    ok = not any(k in ('COMMIT',) for k in kinds)
+                    out.append(R(base + '.refused_entry_runs_nothing', ok, 'transact', p, 'effects %r' % (kinds,)))
+            if seen == 0:
+                out.append(Result('%s.transact[%s]' % (pid, 'nested' if nested else 'outermost'), 'vacuity', 'error', detail='no paths'))
     return out
 
 
@@ -301,6 +393,8 @@ def extra_tasks(pid):
         ts += [('contracts.bulk', 'cull_task', ('C14', 'least-recently-stored'))]
     if pid == 'C07':
         ts += [('contracts.traces', 'exclusive_create', ())]
+    if pid in ('C05', 'C06', 'C07'):
+        ts += [('contracts.traces', 'transact_block', (pid,))]
     if pid == 'C06':
         ts += [('contracts.fanout_common', 'fanout_transact', ()), ('contracts.fanout_common', 'persistent_transact', ())]
     return ts
